@@ -28,10 +28,12 @@ THEOREMS = [f'Gnpy.Chain.{t}' for t in (
     'saturation_minimal_gain_mode', 'saturation_minimal_gain_mode_no_in_voa',
     'gain_mode_in_voa_over_reduction_fails_current', 'saturation_auto_selected', 'user_values_kept', 'voa_rule', 'voa_nonneg',
     'voa_auto_can_exceed_pmax_fails_current', 'nodeLoss_is_true_loss')]
-RULE = ('cases from one PRNG: (a) 78 % the star topologies of C08 (degree 1-5, 1-8 line elements per direction, user '
+RULE = ('cases from one PRNG: (a) 78 % design cases: the star topologies of C08 (degree 1-5, 1-8 line elements per direction, user '
         'amplifiers with full/partial/no gain, delta_p, out_voa, in_voa, fused runs, Raman spans, transceiver-sourced '
         'line) x power/gain mode x delta_power_range/slope/reference/padding/EOL/VOA margin+step/extended gain/ROADM '
-        'targets/per-degree targets/SI power, tx power, channel count; (b) 12 % round2float / target_power unit cases '
+        'targets/per-degree targets/SI power, tx power, channel count, of which 12 % gain-mode lines built on purpose around '
+        'the saturation decision (operator type_variety + operator gain behind an amplifier with operator out_voa 1-4 dB, '
+        'true output inside (p_max - prev_voa, p_max), below it, or just above p_max); (b) 12 % round2float / target_power unit cases '
         'incl. values next to rounding ties and clamps; (c) 10 % malformed delta_power_range_db (2 entries) that must '
         'be rejected with ConfigurationError. non-trivial: at least two amplifiers were designed in one OMS / unit case '
         'off the clamp / every malformed case; distinct = distinct canonical JSON')
@@ -55,11 +57,57 @@ def gen(rng, tier, widen=False):
         return gen_malformed(rng, tier)
     if r < 0.22 or (widen and r < 0.5):
         return gen_unit(rng, widen)
+    if r < 0.34:
+        return gen_gain_saturation(rng)
     # RamanFiber placements that make designed_network raise (open finding raman-gain-before-estimate of C08) are kept
     # out of this generator
     c = G.gen_case(rng, tier, widen, raman_crash_rate=0.0)
     c['kind'] = 'design'
     return c
+
+
+def gen_gain_saturation(rng):
+    """gain mode on purpose around the saturation decision of an amplifier with operator type_variety and operator gain:
+    the amplifier in front of it carries an operator out_voa of 1-4 dB (and the ROADM target / operator offsets vary),
+    and the operator gain is placed so that the TRUE total output `pref_total + prev_dp - prev_voa - node_loss + gain`
+    (in_voa = 0) falls inside (p_max - prev_voa, p_max) - must be kept - , just below p_max, or just above p_max - must be
+    reduced to p_max exactly. Everything else is the default configuration, so the output can be predicted here."""
+    pmax = {'std_low_gain': 23, 'std_medium_gain': 23, 'std_high_gain': 21, 'high_power': 25}
+    nch = 76                                   # shipped SI: int((195.1e12 - 191.3e12) // 50e9)
+    target = rng.choice([-20, -20, -18, -22.5])
+    g0 = rng.choice([18.0, 20.0, 21.5, 23.0])
+    v0 = rng.choice([1.0, 2.0, 3.0, 4.0, 1.5])
+    L1 = rng.choice([60.0, 80.0, 80.0, 100.0, 72.5])
+    loss1 = 0.2 * L1 + 0.5 + 0.5
+    var1 = rng.choice(['std_low_gain', 'std_medium_gain', 'std_high_gain', 'high_power'])
+    where = rng.choice(['window', 'window', 'window', 'below', 'above', 'above'])
+    delta = {'window': -v0 * rng.choice([0.2, 0.4, 0.6, 0.8]), 'below': -v0 - rng.choice([0.3, 1.0]),
+             'above': rng.choice([0.2, 0.7, 2.0])}[where]
+    # total power entering the second amplifier: ROADM target + g0 - v0 - loss1 + 10 log10(nch)
+    p_in = target + g0 - v0 - loss1 + 10 * math.log10(nch)
+    g1 = round(pmax[var1] + delta - p_in, 3)
+    fib = lambda uid, L: {"uid": uid, "type": "Fiber", "type_variety": "SSMF",       # noqa: E731
+                          "params": {"length": L, "length_units": "km", "loss_coef": 0.2, "con_in": 0.5, "con_out": 0.5}}
+    line = [{"uid": "s a0", "type": "Edfa", "type_variety": "std_medium_gain",
+             "operational": {"gain_target": g0, "tilt_target": 0, "out_voa": v0}},
+            fib('s f1', L1),
+            {"uid": "s a1", "type": "Edfa", "type_variety": var1,
+             "operational": {"gain_target": g1, "tilt_target": 0, "out_voa": rng.choice([None, 0, 1.0])}}]
+    if rng.random() < 0.7:
+        line.append(fib('s f2', rng.choice([60.0, 80.0])))
+        if rng.random() < 0.4:
+            # a third operator amplifier behind a second operator VOA
+            line.append({"uid": "s a2", "type": "Edfa", "type_variety": "std_medium_gain",
+                         "operational": {"gain_target": rng.choice([15.0, 17.0, 22.0]), "tilt_target": 0}})
+    span = {'power_mode': False, 'delta_power_range_db': [-2, 3, 0.5], 'power_slope': 0.3, 'span_loss_ref': 20.0,
+            'padding': 10, 'EOL': 0, 'con_in': 0, 'con_out': 0, 'max_length': 150, 'length_units': 'km',
+            'voa_margin': 1, 'voa_step': 0.5, 'target_extended_gain': 2.5, 'max_fiber_lineic_loss_for_raman': 0.25}
+    return {'kind': 'design', 'shape': 'gain-saturation', 'where': where, 'k': 1,
+            'chains': [{'src': 'R0', 'dst': 'R1', 'line': line},
+                       {'src': 'R1', 'dst': 'R0', 'line': [fib('s back', 80.0)]}],
+            'trx_src': None, 'roadms': {'R0': {'target_pch_out_db': target}, 'R1': {}}, 'per_degree': {}, 'span': span,
+            'si': {'power_dbm': 0, 'tx_power_dbm': 0, 'use_si_channel_count_for_design': True}, 'edfa_mod': {},
+            'has_raman': False}
 
 
 def gen_unit(rng, widen=False):
@@ -301,6 +349,8 @@ def run_design(case, drv):
     res.nontrivial = st['oms_with_two_amps'] > 0
     res.stats.update(st)
     res.stats.update({'design': 1, 'power_mode': int(sp['power_mode']), 'gain_mode': int(not sp['power_mode'])})
+    if case.get('shape') == 'gain-saturation':
+        res.stats.update({'gain_saturation_cases': 1, f'gain_saturation_{case["where"]}': 1})
     return res
 
 
